@@ -180,15 +180,26 @@ func (oc *outsChecker) check(dir, owner, id string, t Ty, exp, act interface{}, 
 		if !ok1 {
 			return
 		}
-		if !ok2 || len(am) != len(em) {
+		if !ok2 {
 			if allAbsent(em) && nullish(act) {
 				return
 			}
 			oc.add("shape-changed", fmt.Sprintf("%s (%s): expected a map with keys %v, _outs has %s", where, t, sortedKeys(em), Show(act)))
 			return
 		}
+		for key := range am {
+			if _, ok := em[key]; !ok {
+				oc.add("shape-changed", fmt.Sprintf("%s (%s): _outs has a key %q the stage did not produce", where, t, key))
+			}
+		}
 		for _, key := range sortedKeys(em) {
 			av, ok := am[key]
+			if key == "" || key == "." || key == ".." || strings.Contains(key, "/") || len(key) > 255 {
+				// not a legal file name: martian reports that it cannot create the
+				// directory entry and leaves the key out; nothing to demand for it
+				oc.kinds["map-key-that-is-no-file-name"]++
+				continue
+			}
 			if !ok {
 				oc.add("shape-changed", fmt.Sprintf("%s (%s): key %q is missing from _outs", where, t, key))
 				continue
